@@ -39,7 +39,9 @@ def mkDict (cs ps a o d : String) : Option Dict := do
 def stepLine (x : D) (line : String) : D × String :=
   let ap (op : Op) : D × String := ({ x with st := step x.c x.b x.st op }, "ok")
   match line.trimAscii.toString.splitOn " " with
-  | ["cfg", p, e, m] => ({ x with c := { cloneOwnsPoints := p == "1", cloneOwnsElements := e == "1", mergeOwnsDict := m == "1" } }, "ok")
+  | ["cfg", p, e, m, r] =>
+      let c : Cfg := ⟨p == "1", e == "1", m == "1", r == "1"⟩
+      ({ x with c := c }, "ok")
   | ["new", bp, a, o, d, el] =>
       match parseStore bp, a.toNat?, o.toNat?, d.toNat?, el.toNat? with
       | some bp, some a, some o, some d, some el =>
@@ -91,4 +93,4 @@ partial def loop (h : IO.FS.Stream) (x : D) : IO Unit := do
 
 def main : IO Unit := do
   let b : Base := { pts := [], rs := { start := 0, stop := 0, dt := 0 }, elems := 0 }
-  loop (← IO.getStdin) { c := { cloneOwnsPoints := true, cloneOwnsElements := false, mergeOwnsDict := true }, b := b, st := State.init b }
+  loop (← IO.getStdin) { c := { cloneOwnsPoints := true, cloneOwnsElements := false, mergeOwnsDict := true, reregFreshClone := true }, b := b, st := State.init b }
